@@ -79,6 +79,10 @@ def SK.res (d : DT) : SK → DT
 inductive Shp where
   | arr (d : List Nat)
   | blk (bs : List (List Nat))
+  /-- a tuple of arrays of DIFFERENT dtypes that is not (yet) an array: `snp.stack` of it promotes, `BlockArray(...)` of it
+      raises "Heterogeneous dtypes not supported"; never the declared shape of an operator, only an intermediate result of a
+      stack's `_eval` / `_adj` -/
+  | het (bs : List (List Nat))
 deriving DecidableEq, Repr, Inhabited
 
 /-- the type of an array / BlockArray (BlockArrays are dtype-homogeneous: `BlockArray.__init__` raises otherwise) -/
@@ -120,14 +124,21 @@ structure TOp where
 
 namespace TOp
 
+/-- a closure that ends in `BlockArray(...)` raises for blocks of different dtypes (`ValueError("Heterogeneous dtypes …")`,
+    which the harness classifies by its message as a dtype error) -/
+def sealBlk (r : R) : R :=
+  match r with
+  | .ok ⟨_, .het _⟩ => .error .dtype
+  | r => r
+
 /-- `Operator.__call__` on an array: shape test, then `_eval` -/
 def call (A : TOp) (x : Ty) : R :=
-  if x.sh = A.ish then A.evalT x else .error .shape
+  if x.sh = A.ish then sealBlk (A.evalT x) else .error .shape
 
 /-- `LinearOperator.adj` / `MatrixOperator.adj` on an array: the guards (dtype first), then `_adj` -/
 def adjC (A : TOp) (y : Ty) : R :=
   if A.guard && decide (y.dt ≠ A.odt) then .error .dtype
-  else if y.sh = A.osh then A.adjT y else .error .shape
+  else if y.sh = A.osh then sealBlk (A.adjT y) else .error .shape
 
 /-- `LinearOperator.__add__` / `__sub__`: metadata of `self`, `output_dtype = result_type(self.output_dtype,
     other.output_dtype)`, closures `self(x) ± other(x)` and `self.adj(x) ± other.adj(x)` (the METHODS: guards run) -/
@@ -212,20 +223,27 @@ A stack is written as a chain `vcons A₁ (vcons A₂ (… (vone Aₙ)))`; the c
 
 def dimsOf : Shp → List Nat
   | .arr d => d
-  | .blk _ => []
+  | _ => []
 
 def blocksOf : Shp → List (List Nat)
   | .arr _ => []
   | .blk bs => bs
+  | .het bs => bs
+
+def isHet : Shp → Bool
+  | .het _ => true
+  | _ => false
 
 def isArr : Shp → Bool
   | .arr _ => true
-  | .blk _ => false
+  | _ => false
 
-/-- `BlockArray([a] + list(s))` (dtype-homogeneous or ValueError) -/
+/-- the tuple `(a, *s)` of block results before it is packed: homogeneous dtypes → as a BlockArray type, otherwise the
+    `het` intermediate (promoted dtype) that `snp.stack` accepts and `BlockArray` rejects (`sealBlk`) -/
 def consBlk (a s : Ty) : R :=
   match a.sh, s.sh with
-  | .arr d, .blk bs => if a.dt = s.dt then .ok ⟨a.dt, .blk (d :: bs)⟩ else .error .other
+  | .arr d, .blk bs => if a.dt = s.dt then .ok ⟨a.dt, .blk (d :: bs)⟩ else .ok ⟨DT.promote a.dt s.dt, .het (d :: bs)⟩
+  | .arr d, .het bs => .ok ⟨DT.promote a.dt s.dt, .het (d :: bs)⟩
   | _, _ => .error .other
 
 /-- `BlockArray([a])` -/
@@ -255,7 +273,7 @@ def vcons (A S : TOp) : TOp where
   idt := A.idt
   odt := A.odt
   guard := true
-  evalT := fun x => andThen (A.call x) fun a => andThen (S.call x) fun s => consBlk a s
+  evalT := fun x => andThen (A.call x) fun a => andThen (if x.sh = S.ish then S.evalT x else .error .shape) fun s => consBlk a s
   adjT := fun y =>
     match y.sh with
     | .blk (d :: bs) => andThen (A.adjC ⟨y.dt, .arr d⟩) fun a => andThen (S.adjT ⟨y.dt, .blk bs⟩) fun s => tadd a s
@@ -266,9 +284,10 @@ def collapsible : List (List Nat) → Bool
   | [] => false
   | d :: rest => rest.all (· == d)
 
-/-- the collapsed shape `(N, *S)` -/
+/-- the collapsed shape `(N, *S)`; `snp.stack` also accepts blocks of different dtypes (it promotes) -/
 def collapseShp : Shp → Shp
   | .blk (d :: rest) => if collapsible (d :: rest) then .arr ((rest.length + 1) :: d) else .blk (d :: rest)
+  | .het (d :: rest) => if collapsible (d :: rest) then .arr ((rest.length + 1) :: d) else .het (d :: rest)
   | s => s
 
 /-- the same with the flag `collapse_…` -/
@@ -450,6 +469,9 @@ def homog (coded : Bool) (env : Nat → TOp) : TExpr → Bool
 structure Faithful (A : TOp) : Prop where
   eval_ok : A.evalT ⟨A.idt, A.ish⟩ = .ok ⟨A.odt, A.osh⟩
   adj_ok : A.adjT ⟨A.odt, A.osh⟩ = .ok ⟨A.idt, A.ish⟩
+  /-- the declared shapes are array or BlockArray shapes (never the `het` intermediate) -/
+  ish_nh : TOp.isHet A.ish = false
+  osh_nh : TOp.isHet A.osh = false
 
 /-- type transformer of a leaf measured on the real code: a finite table (anything else: shape error) -/
 def tableFn (tab : List (Ty × R)) (x : Ty) : R :=
